@@ -3,10 +3,12 @@ package c01
 import (
 	"crypto/sha256"
 	"encoding/binary"
+	"fmt"
 	"math/rand/v2"
 
 	"github.com/codenotary/immudb/embedded/store"
 
+	"verifharness/internal/fw"
 	"verifharness/internal/refmerkle"
 )
 
@@ -17,6 +19,9 @@ type dcase struct {
 	sID, tID   uint64
 	sAlh, tAlh H
 	labels     []string // "class:component" of every operator applied
+	// followUp, set by the forked-tree operators: if the forged target is accepted and
+	// becomes the trusted state, present a rewritten old tx proven from the forged tree
+	followUp func() string
 }
 
 func cloneHashes(p [][sha256.Size]byte) [][sha256.Size]byte {
@@ -852,6 +857,223 @@ func treeForgeOps() []mop {
 	return ops
 }
 
+// equalSizeConsistency is what ahtree.ConsistencyProof(j, j) emits (see C08): the two
+// children of the root, right child first; nothing for a single leaf.
+func equalSizeConsistency(t *refmerkle.Tree, j int) []H {
+	if j <= 1 {
+		return nil
+	}
+	k := 1
+	for k*2 < j {
+		k *= 2
+	}
+	return []H{t.MTH(k, j), t.MTH(0, k)}
+}
+
+func treeConsistency(t *refmerkle.Tree, i, j int) []H {
+	switch {
+	case i <= 0 || i > j:
+		return nil
+	case i == j:
+		return equalSizeConsistency(t, j)
+	}
+	return immuConsistency(t, i, j)
+}
+
+// linearTermsFromLedger: alh[m], innerHash(hdr[m+1]) .. innerHash(hdr[t-1]), innerHash(last)
+func linearTermsFromLedger(h *hist, m, t uint64, last *store.TxHeader) ([]H, bool) {
+	if m == 0 || m > t || t > uint64(h.n) {
+		return nil, false
+	}
+	terms := []H{h.alh[m]}
+	for id := m + 1; id <= t; id++ {
+		hd := h.hdr[id]
+		if id == t {
+			hd = last
+		}
+		ih, ok := innerHashOf(hd)
+		if !ok {
+			return nil, false
+		}
+		terms = append(terms, ih)
+	}
+	return terms, true
+}
+
+// lapFromTree: the linear advance proof for (start, end) against the tree ft of the given size;
+// lastHdr, when not nil, replaces the header of tx end-... never needed for the honest chain.
+func lapFromTree(h *hist, ft *refmerkle.Tree, start, end, size uint64, endHdr *store.TxHeader) (*store.LinearAdvanceProof, bool) {
+	if end <= start+1 {
+		return nil, true
+	}
+	if end > uint64(h.n) || end-1 > size {
+		return nil, false
+	}
+	lap := &store.LinearAdvanceProof{LinearProofTerms: []H{h.alh[start+1]}}
+	for tx := start + 1; tx < end; tx++ {
+		lap.InclusionProofs = append(lap.InclusionProofs, ft.Inclusion(int(tx)-1, int(size)))
+		hd := h.hdr[tx+1]
+		if tx+1 == end && endHdr != nil {
+			hd = endHdr
+		}
+		ih, ok := innerHashOf(hd)
+		if !ok {
+			return nil, false
+		}
+		lap.LinearProofTerms = append(lap.LinearProofTerms, ih)
+	}
+	return lap, true
+}
+
+// forkedTreeOps: "forked binary-linking tree". The target header commits to a tree of the
+// same size as the real one (or one leaf smaller / larger, relinked) in which an old leaf
+// k <= source.BlTxID — a position the trusted source header's own BlRoot commits to — is
+// the alh of a REWRITTEN tx k. The source header and the claimed source alh stay real;
+// inclusion, consistency, last-inclusion, linear and linear-advance parts are all
+// re-derived from the forked tree and the ledger, the target's alh and the last linear
+// term follow the forged header. Only the comparison of the two trees (consistency
+// proof, or root equality for equal sizes) can refuse it. Without the rewritten leaf
+// the same construction is a control that must verify.
+func forkedTreeOps() []mop {
+	var ops []mop
+	for _, delta := range []int{0, -1, 1} {
+		for _, forge := range []bool{false, true} {
+			delta, forge := delta, forge
+			class := map[int]string{0: "forked-tree-same-size", -1: "forked-tree-one-leaf-smaller", 1: "forked-tree-one-leaf-larger"}[delta] + "+all-proofs-from-forked-tree+claim-follows"
+			if !forge {
+				if delta != 0 {
+					continue
+				}
+				class = "control:all-proofs-rebuilt-from-reference-tree-and-ledger"
+			}
+			ops = append(ops, mop{class, "binary-linking-tree", func(r *rand.Rand, e *menv, d *dcase) bool {
+				if d.p == nil || d.p.SourceTxHeader == nil || d.p.TargetTxHeader == nil {
+					return false
+				}
+				h, S, T := e.h, d.p.SourceTxHeader, d.p.TargetTxHeader
+				s, t, sb := d.sID, d.tID, S.BlTxID
+				if s == 0 || s > uint64(h.n) || t > uint64(h.n) || t <= s || S.ID != s || T.ID != t || S.Version < 0 || S.Version > 1 || S.Alh() != h.alh[s] {
+					return false
+				}
+				bl := uint64(int64(T.BlTxID) + int64(delta))
+				if int64(T.BlTxID)+int64(delta) < 1 || bl >= t || bl > uint64(h.n) {
+					return false
+				}
+				if e.v2 && (delta != 0 || bl != t-1 || sb != s-1) {
+					return false
+				}
+				leaves := append([]refmerkle.Hash(nil), h.leaf[:bl]...)
+				var k uint64
+				var K *store.TxHeader
+				if forge {
+					// a non-last leaf of the forked tree that the source's own tree covers
+					hi := sb
+					if bl-1 < hi {
+						hi = bl - 1
+					}
+					if hi < 1 {
+						return false
+					}
+					k = 1 + r.Uint64N(hi)
+					K = cloneHdr(h.hdr[k])
+					K.Eh = flipBit(r, K.Eh) // the rewritten tx k
+					if K.Version < 0 || K.Version > 1 {
+						return false
+					}
+					ka := K.Alh()
+					leaves[k-1] = refmerkle.LeafHash(ka[:])
+				}
+				ft := refmerkle.New(leaves)
+				T.BlTxID = bl
+				T.BlRoot = ft.RootAt(int(bl))
+				d.p.InclusionProof = nil
+				if s < bl || (e.v2 && s <= bl) { // DualProofV2 always carries the inclusion of the source in the target's tree
+					d.p.InclusionProof = ft.Inclusion(int(s)-1, int(bl))
+				}
+				d.p.ConsistencyProof = nil
+				if sb > 0 {
+					d.p.ConsistencyProof = treeConsistency(ft, int(sb), int(bl))
+				}
+				if e.v2 {
+					if s == 1 {
+						d.p.ConsistencyProof = treeConsistency(ft, 1, int(bl))
+					}
+					return recompute(d, "tgt")
+				}
+				d.p.TargetBlTxAlh = h.alh[bl]
+				d.p.LastInclusionProof = ft.Inclusion(int(bl)-1, int(bl))
+				m := s
+				if bl > m {
+					m = bl
+				}
+				terms, ok := linearTermsFromLedger(h, m, t, T)
+				if !ok {
+					return false
+				}
+				d.p.LinearProof = &store.LinearProof{SourceTxID: m, TargetTxID: t, Terms: terms}
+				end := s
+				if bl < end {
+					end = bl
+				}
+				if end < sb {
+					return false
+				}
+				lap, ok := lapFromTree(h, ft, sb, end, bl, nil)
+				if !ok {
+					return false
+				}
+				d.p.LinearAdvanceProof = lap
+				if !recompute(d, "tgt") {
+					return false
+				}
+				if forge {
+					forgedT := cloneHdr(T)
+					d.followUp = func() string { return forkFollowUp(h, ft, forgedT, K, k, bl, t) }
+				}
+				return true
+			}})
+		}
+	}
+	return ops
+}
+
+// forkFollowUp: the forged target (t, alh') is now the trusted state. A proof for the
+// rewritten tx k (source) against it, every part taken from the forked tree, is shown
+// to VerifyDualProof; acceptance means a rewritten old tx verifies: a fork.
+func forkFollowUp(h *hist, ft *refmerkle.Tree, T, K *store.TxHeader, k, bl, t uint64) string {
+	kb := K.BlTxID
+	p := &store.DualProof{SourceTxHeader: cloneHdr(K), TargetTxHeader: cloneHdr(T), TargetBlTxAlh: h.alh[bl]}
+	if k >= bl || kb >= k {
+		return "follow-up not applicable"
+	}
+	p.InclusionProof = ft.Inclusion(int(k)-1, int(bl))
+	if kb > 0 {
+		p.ConsistencyProof = treeConsistency(ft, int(kb), int(bl))
+	}
+	p.LastInclusionProof = ft.Inclusion(int(bl)-1, int(bl))
+	terms, ok := linearTermsFromLedger(h, bl, t, T)
+	if !ok {
+		return "follow-up not built"
+	}
+	p.LinearProof = &store.LinearProof{SourceTxID: bl, TargetTxID: t, Terms: terms}
+	lap, ok := lapFromTree(h, ft, kb, k, bl, K)
+	if !ok {
+		return "follow-up not built"
+	}
+	p.LinearAdvanceProof = lap
+	ka, ta := K.Alh(), T.Alh()
+	var acc bool
+	pan, _, _ := fw.Guard(func() { acc = store.VerifyDualProof(p, k, t, ka, ta) })
+	res := "REJECTED"
+	if pan {
+		res = "PANICKED"
+	} else if acc {
+		res = "ACCEPTED (a rewritten old tx verifies against the forged state: fork)"
+	}
+	return fmt.Sprintf("follow-up with the forged target as trusted state (tx %d alh %x, BlTxID %d BlRoot %x; ledger alh[%d] %x, real root of %d leaves %x): rewritten tx %d with alh %x (ledger alh[%d] %x) proven from the forked tree: %s",
+		t, ta, T.BlTxID, T.BlRoot, t, h.alh[t], bl, h.roots[bl], k, ka, k, h.alh[k], res)
+}
+
 func allDualOps() []mop {
 	var ops []mop
 	ops = append(ops, headerOps()...)
@@ -860,5 +1082,6 @@ func allDualOps() []mop {
 	ops = append(ops, claimOps()...)
 	ops = append(ops, forgeOps()...)
 	ops = append(ops, treeForgeOps()...)
+	ops = append(ops, forkedTreeOps()...)
 	return ops
 }
